@@ -7,6 +7,8 @@ package main
 import (
 	"encoding/json"
 	"fmt"
+	"os"
+	"runtime/debug"
 	"sort"
 	"strings"
 
@@ -226,6 +228,11 @@ func genCase(r *vh.Rng) Case {
 				op.S = 1 + r.Intn(3)
 			}
 		}
+		// String objects answer numeric-key own-property queries wrongly (known finding C04-N4): keep the
+		// shape in the stream but rare, so that it does not dominate the mismatches
+		if op.F == 1 && c.Kinds[op.O] == "string" && (op.T == "own" || op.T == "set") && !r.Chance(20) {
+			op.F = 0
+		}
 		op.Dump = r.Chance(dumpP)
 		c.Ops = append(c.Ops, op)
 	}
@@ -260,6 +267,7 @@ function DUMP(o) {
   var ps = p === null ? "None" : (OC.has(p) ? "(Some " + OC.get(p) + ")" : "(Some 99)");
   return "OD " + ps + " " + (Object.isExtensible(o) ? "true" : "false") + " [" + out.join("; ") + "]";
 }
+function HIDDEN(o) { var ks = Reflect.ownKeys(o), n = 0; for (var i = 0; i < ks.length; i++) if (!KC.has(ks[i])) n++; return n; }
 function KEYS(ks) { var out = []; for (var i = 0; i < ks.length; i++) { var c = KC.get(ks[i]); if (c !== undefined) out.push(c); } return out.join("; "); }
 function MK(kind) {
   switch (kind) {
@@ -666,13 +674,15 @@ func (e *env) exec(op Op, tags map[string]bool) (string, string, bool) {
 			v, err = e.runSrc(op.St, fmt.Sprintf("return O[%d][%s];", op.O, e.keySrc(op)))
 		case sGo:
 			op.R = op.O
-			err = rt.Try(func() {
+			if ex := rt.Try(func() {
 				if isSym {
 					v = o.GetSymbol(sym)
 				} else {
 					v = o.Get(name)
 				}
-			})
+			}); ex != nil {
+				err = ex
+			}
 		default:
 			if op.R == op.O && op.K%2 == 0 {
 				v, err = e.call("Reflect.get", o, key)
@@ -753,7 +763,10 @@ func (e *env) exec(op Op, tags map[string]bool) (string, string, bool) {
 		case sGo:
 			var names []string
 			var enumNames []string
-			err := rt.Try(func() { names = o.GetOwnPropertyNames(); enumNames = o.Keys() })
+			var err error
+			if ex := rt.Try(func() { names = o.GetOwnPropertyNames(); enumNames = o.Keys() }); ex != nil {
+				err = ex
+			}
 			b, err2 := e.call("Object.getOwnPropertySymbols", o)
 			if err != nil || err2 != nil {
 				res = "(XErr 9)"
@@ -801,10 +814,21 @@ func (e *env) exec(op Op, tags map[string]bool) (string, string, bool) {
 	case "seal":
 		_, err := e.call("Object.seal", o)
 		return fmt.Sprintf("(XL %d)", op.O), e.okOrType(err), true
-	case "isf":
-		return fmt.Sprintf("(XIF %d)", op.O), e.boolRes(e.call("Object.isFrozen", o)), true
-	case "iss":
-		return fmt.Sprintf("(XIS %d)", op.O), e.boolRes(e.call("Object.isSealed", o)), true
+	case "isf", "iss":
+		// own properties outside the key pool (length, name, prototype ...) are not part of the model:
+		// the answer is then only compared when it cannot depend on them
+		fn, t := "Object.isFrozen", "XIF"
+		if op.T == "iss" {
+			fn, t = "Object.isSealed", "XIS"
+		}
+		res := e.boolRes(e.call(fn, o))
+		if h, err := e.call("HIDDEN", o); err != nil || h.ToInteger() != 0 {
+			if res == "(XB false)" {
+				res = "XAny"
+			}
+			tags["hidden-own-props"] = true
+		}
+		return fmt.Sprintf("(%s %d)", t, op.O), res, true
 	case "ise":
 		fn := "Object.isExtensible"
 		if surf == sReflect {
@@ -874,6 +898,14 @@ func joinNonEmpty(a, b string) string {
 func kindOf(e *env, i int) string { return e.kindNames[i] }
 
 func runCase(c Case) vh.Record {
+	if os.Getenv("C04_DEBUG") != "" {
+		defer func() {
+			if x := recover(); x != nil {
+				fmt.Fprintln(os.Stderr, x, string(debug.Stack()))
+				panic(x)
+			}
+		}()
+	}
 	if len(c.Kinds) == 0 {
 		c.Kinds = []string{"plain"}
 	}
